@@ -121,6 +121,11 @@ Definition stf := pval -> dst -> res (json * dst).
 
 Definition is_prop (v : pval) : bool := match v with PProp _ => true | _ => false end.
 
+(* _json_key(key) in json_keys: the text json would store the key under was already used by an earlier key of
+   the same dict (`acc` holds exactly the texts used so far; a key json refuses, k_val = None, is not checked) *)
+Definition key_collides (k : dkey) (acc : list (pstr * json)) : bool :=
+  match k_val k with Some sc => mem (key_text sc) (map fst acc) | None => false end.
+
 Section Loops.
   Variable f : stf.
 
@@ -130,13 +135,15 @@ Section Loops.
     | x :: l' => do (j, st1) <- f x st; do (js, st2) <- states_of l' st1; Ok (j :: js, st2)
     end.
 
-  (* the loop of dict_get_state *)
+  (* the loop of dict_get_state: a key whose JSON text was used by an earlier kept key of this dict raises
+     ValueError when it is met -- after the earlier values were serialised, before its own value is *)
   Fixpoint content_of (l : list (dkey * pval)) (acc : list (pstr * json)) (st : dst) {struct l}
     : res (list (pstr * json) * dst) :=
     match l with
     | [] => Ok (acc, st)
     | (k, x) :: l' =>
         if is_prop x then content_of l' acc st            (* isinstance(value, property): continue *)
+        else if key_collides k acc then Raise EValue
         else
           do (j, st1) <- f x st;
           match k_val k with
